@@ -242,10 +242,12 @@ def check_resample(t):
     return None
 
 
-def glide_model(scale):
+def glide_model(scale, ceiling_ft=None):
     """The shipped B738 table with the descent rates scaled: a valid table that
-    glides shallower (scale < 1) than the builder's top-of-descent rule assumes."""
-    key = ('glide', scale)
+    glides shallower (scale < 1) than the builder's top-of-descent rule assumes;
+    optionally with another aircraft ceiling (the table itself still covers all levels)."""
+    scale = 1.0 if scale is None else scale
+    key = ('glide', scale, ceiling_ft)
     if key not in _state:
         import tomllib
 
@@ -258,6 +260,8 @@ def glide_model(scale):
         cols = [c.lower() for c in d[fk]['cols']]
         ir = cols.index('rocd')
         d[fk]['data'] = [[(v * scale if j == ir and r[ir] < 0 else v) for j, v in enumerate(r)] for r in d[fk]['data']]
+        if ceiling_ft is not None:
+            d[next(k for k in d if k.lower() == 'maximum_altitude_ft')] = ceiling_ft
         _state[key] = PerformanceModel.from_data(d)
     return _state[key]
 
@@ -267,8 +271,8 @@ def run_traced(job):
     try:
         pm = setup()
         route, lf, fracs, start_mass, iterate = job[:5]
-        if len(job) > 5 and job[5] is not None:
-            pm = glide_model(job[5])
+        if len(job) > 5 and (job[5] is not None or (len(job) > 6 and job[6] is not None)):
+            pm = glide_model(job[5], job[6] if len(job) > 6 else None)
         m = mission(route[0], route[1], load_factor=lf)
         kw = {} if start_mass is None else {'starting_mass': start_mass}
         try:
@@ -313,6 +317,11 @@ def traced_jobs(ctx):
     for p in [('BOS', 'LAX'), ('SFO', 'ORD'), ('DLW', 'DLE'), ('PLA', 'PLB'), ('MRA', 'MRB')]:
         for sc in (0.6, 1.5):
             jobs.append((p, 1.0, fr[1], None, False, sc))
+    # aircraft ceilings around the elevation of the high airport MID (14 000 ft): below it (the mission cannot be flown),
+    # less than 3 000 ft above it (climb starts at the airport's own elevation), just above that, and low for an ordinary airport
+    for p in [('MID', 'LAX'), ('LAX', 'MID'), ('DEN', 'MID'), ('BOS', 'JFK')]:
+        for ceil in (13000, 15000, 18000, 24000):
+            jobs.append((p, 1.0, fr[1], None, False, None, ceil))
     return jobs
 
 
@@ -381,7 +390,7 @@ def run(ctx: Ctx):
         'A: every (n_climb, n_cruise, n_descent) of the TLC case set (2..101, around the 50-point growth boundary) flown exactly with a '
         'phase-constant table (20:1 glide, so the descent overshoots the destination) on an equatorial, a meridional, a transcontinental and an antimeridian route, positions included; B: B738 flights over seeded airport pairs of the test airport file and '
         '14 special routes (antimeridian, polar, near-antipodal, very short, high elevation) x load factors x 5 step-fraction triples x given '
-        'starting masses x mass iteration x descent-rate-scaled tables (0.6: overshoot, 1.5), each validated as a trace; non-trivial = a phase does not end on the 50-point boundary, or special route'
+        'starting masses x mass iteration x descent-rate-scaled tables (0.6: overshoot, 1.5) x aircraft ceilings around the elevation of a high airport, each validated as a trace; non-trivial = a phase does not end on the 50-point boundary, or special route'
     )
     ctx.assumptions += [
         'pyproj.Geod is the trusted base for "on the great circle at the recorded distance" (1 m tolerance)',
